@@ -260,6 +260,18 @@ for i, tier in ((I(16, 2), 'quick'), (I(32, 2), 'quick'), (I(8, 3), 'thorough'),
     add(H('C02', f"c02_alpha_{i.tag}", 'c02_alpha', f"{i.n + 2}, {i.U}, {i.I}, {i.digit}, {i.n}", tier=tier, cap=1200, inst=i.label,
           funcs='overflowing/widening/carrying_mul (BUint), overflowing/saturating_mul (BInt), exact arithmetic',
           bound='every digit over the boundary alphabet {0,1,2,B/2-1,B/2,B/2+1,B-2,B-1}; exact u128 oracle'))
+C02_CMUL = [
+    # sparse constants finish in seconds; dense ones (MAX, -3, mixed) are a genuine multiplier equivalence and did not finish in 540 s: thorough tier
+    (I(64, 2), 'max', [0xffffffffffffffff, 0xffffffffffffffff], 'thorough'), (I(64, 2), 'min', [0, 0x8000000000000000], 'quick'), (I(64, 2), 'p2p1', [1, 1], 'quick'), (I(64, 2), 'three', [3, 0], 'quick'),
+    (I(64, 3), 'mix', [0xfffffffffffffffe, 1, 0x7fffffffffffffff], 'thorough'), (I(64, 3), 'neg3', [0xfffffffffffffffd, 0xffffffffffffffff, 0xffffffffffffffff], 'thorough'), (I(32, 4), 'alt', [0xffffffff, 0, 0xffffffff, 0], 'thorough'),
+    (I(64, 3), 'p2s', [0, 1, 0x8000000000000000], 'quick'), (I(16, 4), 'c64', [0xfffe, 0x0001, 0x8000, 0x7fff], 'thorough'), (I(8, 8), 'c64', [0xff, 0, 0x80, 0x7f, 1, 0xfe, 0, 0x80], 'thorough'), (I(64, 1), 'max', [0xffffffffffffffff], 'quick'), (I(64, 1), 'min', [0x8000000000000000], 'quick'),
+    (I(64, 2), 'smax', [0xffffffffffffffff, 0x7fffffffffffffff], 'thorough'), (I(32, 2), 'neg1', [0xffffffff, 0xffffffff], 'quick'),
+]
+for i, tag, bv, tier in C02_CMUL:
+    L = i.bits // 64
+    add(H('C02', f"c02_cmul_{i.tag}_{tag}", 'c02_cmul', f"{max(2 * L, i.n) + 3}, {i.U}, {i.I}, {i.digit}, {i.n}, {L}, {2 * L}, [{', '.join(hex(v) for v in bv)}]", tier=tier, cap=1800, inst=i.label, core=False, mem_gb=10,
+          funcs='overflowing/checked/wrapping/saturating/widening/carrying_mul (BUint), overflowing/saturating_mul (BInt): exact multiplier with one concrete operand',
+          bound=f'all values of the other operand and of the carry word; concrete operand {tag}; exact limb oracle, symbolic limb index'))
 for i in (I(8, 1), I(16, 1), I(32, 1), I(64, 1)):
     add(H('C02', f"c02_kernel_{i.tag}", 'c02_kernel', f"3, {i.U}, {i.digit}, {DD[i.digit]}", inst=i.label, cap=900,
           funcs='digit product kernel through N=1 widening_mul / carrying_mul / overflowing_mul', bound='all digit triples; double-width primitive product as oracle'))
@@ -326,10 +338,10 @@ for key, (i, lst) in C03_CDIV.items():
             continue
         add(H('C03', f"c03_u_cdiv_{i.tag}_{tag.replace('.', '').replace('_', '')}", 'c03_u_cdiv', f"{i.n + 2}, {i.U}, {i.digit}, {i.n}, {X}, [{', '.join(hex(v) for v in dv)}]", tier=('quick' if tag in C03_CDIV_FAST else 'thorough'), cap=(600 if tag in C03_CDIV_FAST else 3600), inst=i.label, core=False, mem_gb=8,
               funcs='BUint / and % (Knuth D: q-hat estimate, corrections, multiply-subtract, add-back at every quotient position)', bound=f'all dividends; concrete divisor 0x{tag}; postcondition n = q*d + r, r < d'))
-for tag, dv, tier in (('8..01', [1, 0x8000000000000000, 0], 'thorough'), ('f..f', [0xffffffffffffffff, 0xffffffffffffffff, 0], 'thorough'), ('1_1', [1, 1, 0], 'thorough'),
+for tag, dv, tier in (('8..01', [1, 0x8000000000000000, 0], 'quick'), ('f..f', [0xffffffffffffffff, 0xffffffffffffffff, 0], 'thorough'), ('1_1', [1, 1, 0], 'quick'),
                       ('7..f_f..e', [0xfffffffffffffffe, 0x7fffffffffffffff, 0], 'thorough')):
     i = I(64, 3)
-    add(H('C03', f"c03_u_cdiv_wide_{i.tag}_{tag.replace('.', '').replace('_', '')}", 'c03_u_cdiv_wide', f"{i.n + 2}, {i.U}, {i.n}, [{', '.join(hex(v) for v in dv)}]", tier=tier, cap=5400, inst=i.label, core=False, mem_gb=12,
+    add(H('C03', f"c03_u_cdiv_wide_{i.tag}_{tag.replace('.', '').replace('_', '')}", 'c03_u_cdiv_wide', f"{i.n + 2}, {i.U}, {i.n}, [{', '.join(hex(v) for v in dv)}]", tier=tier, cap=(900 if tier == 'quick' else 7200), inst=i.label, core=False, mem_gb=12,
           funcs='BUint<3> / and % (Knuth D with u64 digits, two quotient digits)', bound=f'all 2^192 dividends; concrete two-digit divisor {tag}; limb oracle n = q*d + r, r < d'))
 c03_set(I(8, 1), 'any', 'quick', 600)
 c03_set(I(8, 2), 'any', 'quick', 900, path='small')
@@ -481,13 +493,13 @@ for i, tier in ((I(64, 3), 'quick'), (I(8, 17), 'quick'), (I(32, 5), 'thorough')
           funcs='Roots::nth_root (BUint, BInt): degree dispatch, zero/one and bits <= n shortcuts, delegation to the u128 implementation below 2^128, sign handling; Newton kernel (fixpoint) and u128 roots replaced by uninterpreted stand-ins',
           bound='all values, all degrees 1..=u32::MAX; shortcut results exact, all other inputs reach the kernel'))
 
-for i, degs, tier in ((I(64, 3), (4, 16, 47, 191), 'quick'), (I(8, 17), (4, 9, 135), 'quick'), (I(32, 5), (5, 33), 'thorough'), (I(64, 5), (7, 100), 'thorough')):
+for i, degs, tier in ((I(64, 3), (4, 13, 14, 16, 47, 191), 'quick'), (I(8, 17), (4, 9, 12, 135), 'quick'), (I(32, 5), (5, 33), 'thorough'), (I(64, 5), (7, 100), 'thorough')):
     for dg in degs:
         stubs = [f"kani::stub(bnum::{DIG[i.digit][2]}::fixpoint, crate::c18::fixpoint_once_stub_{i.digit})"]
         top = f"{i.digit}::MAX" if dg % 2 == 0 else f"1 << ({i.digit}::BITS - 1)"
         add(H('C18', f"c18_roots_first_step_{i.tag}_n{dg}", 'c18_roots_first_step', f"{max(i.n + 3, 10)}, {i.std().rsplit(',', 1)[0]}, bnum::BUint<8>, {dg}, {top}, [{', '.join(stubs)}]", tier=tier, inst=i.label, cap=1800, stub=True, core=False,
               funcs=f'Roots::nth_root({dg}): the first Newton step (guess^(n-1), division, weighted mean) evaluated on the initial guess',
-              bound=f'all values with the concrete top digit {top} (full bit length {i.bits}), concrete degree {dg}; no panic / overflow in the first step; later steps not encoded'))
+              bound=f'all values with the concrete top digit {top} (full bit length {i.bits}), concrete degree {dg}; initial guess, no panic / overflow in the first step and its exact value; later steps not encoded'))
 
 
 # ---------------------------------------------------------------- C10
@@ -529,7 +541,7 @@ for sg in ('u', 'i'):
         c10_str(i, sg, 4, 10, 10, 'thorough', cap=3600)
     add(H('C10', f"c10_bytes_{sg}_d8x1", 'c10_bytes', f"6, {I(8, 1).U if sg == 'u' else I(8, 1).I}, u8, 1, 3, 10", inst=I(8, 1).label, cap=1800, core=False, mem_gb=6,
           funcs='parse_bytes (UTF-8 validation + grammar)', bound='all byte strings of length 0..=3, radix 10'))
-for i, sg, L, R, first, tier in ((I(64, 1), 'u', 20, 10, '1', 'thorough'), (I(64, 1), 'u', 19, 10, '9', 'quick'), (I(64, 1), 'i', 20, 10, '-', 'quick'), (I(64, 2), 'u', 33, 16, '0', 'quick'), (I(32, 2), 'i', 17, 16, '+', 'quick'),
+for i, sg, L, R, first, tier in ((I(64, 1), 'u', 20, 10, '1', 'thorough'), (I(64, 1), 'u', 19, 10, '9', 'quick'), (I(64, 1), 'i', 20, 10, '-', 'quick'), (I(64, 2), 'u', 33, 16, '0', 'quick'), (I(32, 2), 'i', 18, 16, '+', 'quick'),
                                  (I(64, 1), 'u', 21, 10, '+', 'thorough'), (I(64, 1), 'u', 21, 10, '0', 'thorough'), (I(64, 1), 'i', 20, 10, '+', 'thorough'), (I(64, 1), 'i', 19, 10, '9', 'thorough'), (I(16, 4), 'u', 19, 10, '7', 'thorough'),
                                  (I(64, 2), 'u', 39, 10, '3', 'thorough'), (I(64, 2), 'i', 40, 10, '-', 'thorough'), (I(8, 8), 'u', 21, 10, '0', 'thorough'), (I(16, 4), 'i', 20, 10, '-', 'thorough'),
                                  (I(32, 2), 'u', 20, 10, '1', 'thorough'), (I(32, 3), 'u', 25, 16, '+', 'thorough'), (I(64, 1), 'u', 13, 36, '3', 'thorough'), (I(64, 1), 'i', 41, 3, '-', 'thorough'),
@@ -609,8 +621,8 @@ for i, R, lg, top, tier in ((I(64, 5), 256, 8, '1', 'quick'), (I(64, 5), 16, 4, 
     add(H('C11', f"c11_wide_{i.tag}_r{R}", 'c11_wide', f"{max(n, i.n) + 3}, {i.U}, {i.digit}, {i.n}, {R}, {lg}, {top}", tier=tier, cap=1800, inst=i.label, core=False, mem_gb=10,
           funcs='BUint::to_radix_le / to_radix_be, power-of-two radix (to_bitwise_digits_le / to_inexact_bitwise_digits_le), widths above 128 bits',
           bound=f'all values whose most significant digit is {top} (all lower digits symbolic), radix {R}; symbolic output position'))
-for i, R, top, tier in ((I(64, 3), 10, 'u64::MAX', 'thorough'), (I(64, 3), 10, '1', 'thorough'), (I(32, 5), 10, '0xffff_ffff', 'thorough'), (I(16, 9), 3, '1', 'thorough'), (I(8, 17), 3, '0xff', 'thorough'),
-                       (I(64, 3), 36, '1', 'thorough'), (I(32, 5), 255, '7', 'thorough')):
+# (calibration: D64x3 radix 10 and D16x9 radix 3 did not finish in 1350 s; the family is kept small and thorough-only)
+for i, R, top, tier in ((I(64, 3), 10, '1', 'thorough'), (I(8, 17), 3, '0xff', 'thorough')):
     tv = int(eval(top.replace('u64::MAX', str(2**64-1)).replace('_', '')))
     bits = (i.n - 1) * i.dbits + tv.bit_length()
     maxd = len(_digits_in(2 ** bits - 1, R)) if False else int(math.floor(bits / math.log2(R))) + 1
@@ -675,6 +687,17 @@ for sg in ('u', 'i'):
                             (I(64, 1), I(64, 2), 'false', 'quick'), (I(8, 3), I(64, 1), 'false', 'thorough'), (I(32, 1), I(8, 5), 'false', 'thorough'), (I(64, 2), I(64, 3), 'false', 'thorough')):
         c16_pair('c16_extend', a, b, sg, tier, extra=f', {mul}', cap=3600, core=(mul == 'false'),
                  label='zero-/sign-extension commutes with add/sub/cmp/shl' + (' and mul/div/rem/pow' if mul == 'true' else ''))
+C16_CMUL = [
+    (I(8, 4), I(32, 1), 'u', '8001', [0x01, 0x80, 0, 0], 'quick'), (I(8, 8), I(64, 1), 'u', 'ffff0001', [0x01, 0, 0xff, 0xff, 0, 0, 0, 0], 'quick'), (I(16, 4), I(32, 2), 'i', '8000_0001', [1, 0, 0, 0x80, 0, 0, 0, 0], 'quick'),
+    (I(32, 4), I(64, 2), 'u', '2p64p1', [1, 0, 0, 0, 0, 0, 0, 0, 1, 0, 0, 0, 0, 0, 0, 0], 'quick'), (I(8, 16), I(64, 2), 'u', 'top80', [1, 0, 0, 0, 0, 0, 0, 0, 0, 0, 0, 0x80, 0, 0, 0, 0], 'thorough'),
+    (I(16, 8), I(32, 4), 'i', 'neg3', [0xfd, 0xff, 0xff, 0xff, 0xff, 0xff, 0xff, 0xff, 0xff, 0xff, 0xff, 0xff, 0xff, 0xff, 0xff, 0xff], 'thorough'), (I(32, 2), I(64, 1), 'i', 'min', [0, 0, 0, 0, 0, 0, 0, 0x80], 'quick'),
+    (I(8, 12), I(32, 3), 'u', 'mid', [0xff, 0xff, 0, 0, 0x01, 0, 0, 0x80, 0, 0, 0, 0], 'thorough'),
+]
+for a, b, sg, tag, yb, tier in C16_CMUL:
+    A, B = (a.U, b.U) if sg == 'u' else (a.I, b.I)
+    add(H('C16', f"c16_same_width_cmul_{sg}_{a.tag}_{b.tag}_{tag.replace('_', '')}", 'c16_same_width_cmul', f"{max(a.n, b.n, 8) + 3}, {A}, {a.digit}, {a.n}, {B}, {b.digit}, {b.n}, {a.bytes}, [{', '.join(hex(v) for v in yb)}]",
+          tier=tier, cap=1800, inst=f"{a.label} vs {b.label}", core=False, mem_gb=10, funcs='equal width, two digit types: mul / div / rem with one concrete operand',
+          bound=f'all values of the other operand; concrete operand {tag}'))
 for sg in ('u', 'i'):
     for a, b, L, tier in ((I(8, 1), I(8, 2), 5, 'quick'), (I(8, 2), I(16, 1), 4, 'thorough'), (I(8, 1), I(64, 1), 5, 'thorough')):
         A, B = (a.U, b.U) if sg == 'u' else (a.I, b.I)
@@ -746,8 +769,8 @@ def c12_dec(i, sg, kind, fv, tier, cap=1800, core=False):
 
 for i, sg, kind, fv, tier in ((I(8, 2), 'u', 'x', 1, 'quick'), (I(8, 3), 'i', 'x', 2, 'quick'), (I(16, 2), 'u', 'x', 3, 'quick'), (I(32, 2), 'i', 'x', 1, 'quick'), (I(64, 2), 'u', 'x', 4, 'quick'),
                               (I(64, 1), 'i', 'x', 0, 'quick'), (I(16, 1), 'u', 'x', 5, 'quick'), (I(64, 3), 'i', 'x', 5, 'quick'),
-                              (I(8, 2), 'i', 'X', 3, 'quick'), (I(16, 2), 'i', 'X', 1, 'quick'), (I(64, 2), 'i', 'X', 2, 'quick'), (I(32, 1), 'u', 'X', 0, 'quick'), (I(8, 3), 'u', 'X', 5, 'quick'),
-                              (I(8, 1), 'u', 'b', 1, 'quick'), (I(8, 1), 'i', 'b', 2, 'quick'), (I(8, 2), 'u', 'b', 3, 'quick'), (I(16, 1), 'i', 'b', 0, 'quick'), (I(8, 3), 'i', 'b', 5, 'quick'),
+                              (I(8, 2), 'i', 'X', 3, 'quick'), (I(16, 2), 'i', 'X', 1, 'quick'), (I(64, 2), 'i', 'X', 2, 'thorough'), (I(32, 1), 'u', 'X', 0, 'quick'), (I(8, 3), 'u', 'X', 5, 'quick'),
+                              (I(8, 1), 'u', 'b', 1, 'quick'), (I(8, 1), 'i', 'b', 2, 'quick'), (I(8, 2), 'u', 'b', 3, 'quick'), (I(16, 1), 'i', 'b', 0, 'quick'), (I(8, 3), 'i', 'b', 5, 'thorough'),
                               (I(8, 1), 'u', 'o', 1, 'quick'), (I(8, 1), 'i', 'o', 3, 'quick'), (I(8, 2), 'u', 'o', 5, 'quick'),
                               (I(8, 4), 'u', 'x', 0, 'thorough'), (I(8, 5), 'i', 'x', 1, 'thorough'), (I(16, 3), 'u', 'x', 2, 'thorough'), (I(32, 3), 'u', 'x', 3, 'thorough'), (I(64, 3), 'u', 'x', 1, 'thorough'),
                               (I(64, 3), 'i', 'X', 4, 'thorough'), (I(32, 2), 'u', 'X', 2, 'thorough'), (I(8, 17), 'i', 'X', 5, 'thorough'), (I(16, 9), 'u', 'x', 0, 'thorough'), (I(32, 5), 'i', 'x', 3, 'thorough'),
@@ -756,7 +779,7 @@ for i, sg, kind, fv, tier in ((I(8, 2), 'u', 'x', 1, 'quick'), (I(8, 3), 'i', 'x
                               (I(16, 1), 'i', 'o', 1, 'thorough'), (I(32, 1), 'u', 'o', 2, 'thorough'), (I(64, 1), 'i', 'o', 0, 'thorough')):
     if not any(h.name == f"c12_{ {'b': 'bin', 'x': 'lhex', 'X': 'uhex', 'o': 'oct'}[kind]}_{sg}_{i.tag}" for h in REG):
         c12_radix(i, sg, kind, fv, tier, cap=900 if tier == 'quick' else 3600, core=(tier == 'quick' and i.bits <= 64))
-for i, sg, kind, fv, tier in ((I(8, 1), 'u', 0, 1, 'quick'), (I(8, 1), 'i', 0, 3, 'quick'), (I(8, 1), 'u', 1, 2, 'quick'), (I(8, 1), 'i', 1, 5, 'quick'), (I(8, 2), 'i', 0, 5, 'quick'),
+for i, sg, kind, fv, tier in ((I(8, 1), 'u', 0, 1, 'quick'), (I(8, 1), 'i', 0, 3, 'quick'), (I(8, 1), 'u', 1, 2, 'quick'), (I(8, 1), 'i', 1, 5, 'thorough'), (I(8, 2), 'i', 0, 5, 'quick'),
                               (I(16, 1), 'u', 0, 2, 'quick'),
                               (I(8, 1), 'u', 2, 0, 'thorough'), (I(8, 1), 'i', 2, 2, 'thorough'), (I(8, 1), 'u', 3, 3, 'thorough'), (I(8, 1), 'i', 3, 5, 'thorough'),
                               (I(32, 1), 'i', 0, 1, 'thorough'), (I(64, 1), 'u', 0, 3, 'thorough'), (I(32, 2), 'i', 1, 0, 'thorough'), (I(8, 2), 'i', 2, 1, 'thorough')):
